@@ -142,8 +142,39 @@ def run(ctx):
                 removal = bool(use and REMOVAL.search(use)) or (how == "store" and fresh_empty(fn_rv(f, s)))
                 key = "K6|cache-mirror|%s|%s" % (f.path, store)
                 dom = f.dominators().get(bb, set())
-                ok = removal or bb in ctb or bool(dom & ctb) or f.all_paths_pass(bb, ctb)
-                res.site(key, True, {"fn": f.path, "store": store, "how": how, "via": use, "removal_type": removal, "cache_update_on_all_paths": ok, "verdict": "ok" if ok else "VIOLATION"})
+                # content merged in from ANOTHER Program (a Program-typed parameter other than self): the cache update has
+                # to account for that program's share of this store -- a rebuild, a union with that program's cache, or
+                # add_instruction(s) fed from the same store of it; adding only its body does not cover its definitions
+                ctb_here = ctb
+                merged_from = None
+                if how == "mutref":
+                    l = s["p"]["l"]
+                    for b2, t2, c2 in f.calls():
+                        if c2 and len(t2["args"]) >= 2 and (t2["args"][0].get("m") or t2["args"][0].get("c") or {}).get("l") == l:
+                            from qv.engine import walk_expr as _we10
+                            hit = []
+                            _we10(fn_expr_operand(f, t2["args"][1]), lambda n: hit.append(n[1][1]) if n[0] == "field" and n[2] == store and n[1][0] == "param" and n[1][1] != 1 and "quil_rs::program::Program" in f.local_ty(n[1][1])["s"] else None)
+                            if hit:
+                                merged_from = hit[0]
+                if merged_from is not None:
+                    ctb_here = set()
+                    for b3, t3, c3 in f.calls():
+                        if not c3:
+                            continue
+                        nm3 = c3.get("name")
+                        if nm3 == "rebuild_used_qubits" and callee_path(c3).startswith(PROGRAM + "::"):
+                            ctb_here.add(b3)
+                        elif len(t3["args"]) >= 2:
+                            recv3 = fn_expr_operand(f, t3["args"][0])
+                            arg3 = fn_expr_operand(f, t3["args"][1])
+                            names3 = []
+                            _we10(arg3, lambda n: names3.append(n[2]) if n[0] == "field" and n[1][0] == "param" and n[1][1] == merged_from else None)
+                            if nm3 in ("extend", "union", "append") and CACHE in c09.self_fields(recv3) and CACHE in names3:
+                                ctb_here.add(b3)
+                            if nm3 in ("add_instruction", "add_instructions") and callee_path(c3).startswith(PROGRAM + "::") and store in names3:
+                                ctb_here.add(b3)
+                ok = removal or bb in ctb_here or bool(dom & ctb_here) or f.all_paths_pass(bb, ctb_here)
+                res.site(key, True, {"fn": f.path, "store": store, "how": how, "via": use, "removal_type": removal, "merged_from_program_param": merged_from, "cache_update_on_all_paths": ok, "verdict": "ok" if ok else "VIOLATION"})
                 if not ok:
                     res.find(key, f.loc(s["sp"]), "%s mutates store `%s` of a Program (%s) without updating `used_qubits` (or rebuilding it) on every path to its return" % (f.path, store, use or how), "add an instruction mentioning a new qubit through this function: get_used_qubits() misses it and the program is != an equal-content program")
     res.count("store_mutation_sites", nmut, floor=10)
@@ -242,7 +273,29 @@ def run(ctx):
             flds = dict(zip(s["rv"]["a"]["fields"], s["rv"]["ops"]))
             cache_e = fn_expr_operand(f, flds[CACHE])
             if not fresh_empty(cache_e):
-                res.site("R2|literal|%s" % f.path, True, {"fn": f.path, "cache": "not fresh-empty", "verdict": "ok"})
+                # a cache carried over from another Program value is right only if every qubit-bearing store is carried
+                # over from that same value too; otherwise it can be a stale superset (or miss qubits), so a rebuild
+                # must follow on every path
+                from qv.engine import walk_expr as _we10b
+
+                def carried(e_, fld):
+                    hit = []
+                    _we10b(e_, lambda n: hit.append(n[1][1]) if n[0] == "field" and n[2] == fld and n[1][0] == "param" else None)
+                    return set(hit)
+
+                src = carried(cache_e, CACHE)
+                key = "R2|carried-cache-literal|%s" % f.path
+                if src:
+                    differing = [st for st in sorted(bearing) if not (carried(fn_expr_operand(f, flds[st]), st) & src) or fn_expr_operand(f, flds[st])[0] == "phi"]
+                    # a field written as `x.clone()` / moved is a plain projection or a clone call of it
+                    differing = [st for st in differing]
+                    good = {bb for bb, t, c in f.calls() if c and callee_path(c).startswith(PROGRAM + "::") and c.get("name") == "rebuild_used_qubits"}
+                    ok1 = not differing or f.all_paths_pass(i, good)
+                    res.site(key, True, {"fn": f.path, "cache_from_param": sorted(src), "stores_not_carried_over_with_it": differing, "rebuild_on_all_paths": bool(differing) and ok1, "verdict": "ok" if ok1 else "VIOLATION"})
+                    if not ok1:
+                        res.find(key, f.loc(s["sp"]), "%s builds a Program that takes over the used-qubit cache of another program value while its stores %s do not come from that value, and does not rebuild the cache: qubits that are no longer mentioned stay in the set" % (f.path, differing), "expanding `seq1(pi) 0 7` where the sequence body never uses its second qubit: 7 is gone from the instructions but still a used qubit")
+                else:
+                    res.site("R2|literal|%s" % f.path, True, {"fn": f.path, "cache": "not fresh-empty, not a carried-over cache", "verdict": "ok"})
                 continue
             nonempty = [st for st in sorted(bearing) if not fresh_empty(fn_expr_operand(f, flds[st]))]
             # the rebuild must cover the non-empty stores: rebuild_used_qubits does; add_instruction(s) only covers the body
